@@ -25,7 +25,7 @@ func init() {
 				"reply, and that function accepts only replies whose ID, question count, question type and (case-insensitively) " +
 				"name equal the request's.",
 			NotCovered: "the up/down state machine over all fault sequences and the timing of the backoff (run-time quantities).",
-			Rules: map[string]string{"C17-R10": "isExpectedConnErr is net.Error-or-EOF on non-nil errors; the forward metrics listener tolerates the nil response of a failed exchange", "C17-R9": "the fail-over decision classifies exchange errors with the same helper as the retry (net.Error or io.EOF)", "C17-RC": "class rules (error chains, shadowed results, character classes, crossed arguments, pool constructors, array pools, loop completeness, loop-carried buffers, replacing setters, complete clones, Grow arithmetic, pooled-buffer escape, sorted searches, fresh decode targets, per-iteration objects, whole-message copies, codec guards) over the packages this property rests on", "C17-R8": "every fmt.Errorf that reports an error value wraps it with %w (the fail-over decision classifies causes with errors.As)", "C17-R7": "upstream connection pool: Get hands out only connections that passed the idle-expiry test (expired ones are closed), Put queues or closes", "C17-R1": "ServeDNS fail-over table", "C17-R2": "who replaces the active set, under which lock and gate",
+			Rules: map[string]string{"C17-R11": "a buffer that is both sent and received into is filled again before it is sent a second time (the retry after a failed exchange sends the query, not the remains of a partial response)", "C17-R10": "isExpectedConnErr is net.Error-or-EOF on non-nil errors; the forward metrics listener tolerates the nil response of a failed exchange", "C17-R9": "the fail-over decision classifies exchange errors with the same helper as the retry (net.Error or io.EOF)", "C17-RC": "class rules (error chains, shadowed results, character classes, crossed arguments, pool constructors, array pools, loop completeness, loop-carried buffers, replacing setters, complete clones, Grow arithmetic, pooled-buffer escape, sorted searches, fresh decode targets, per-iteration objects, whole-message copies, codec guards) over the packages this property rests on", "C17-R8": "every fmt.Errorf that reports an error value wraps it with %w (the fail-over decision classifies causes with errors.As)", "C17-R7": "upstream connection pool: Get hands out only connections that passed the idle-expiry test (expired ones are closed), Put queues or closes", "C17-R1": "ServeDNS fail-over table", "C17-R2": "who replaces the active set, under which lock and gate",
 				"C17-R3": "health probe state table", "C17-R5": "configuration wiring: main servers, fallback servers and health-check settings of the configuration reach the handler's fields of the same meaning",
 				"C17-R4": "reply validation tables"},
 		}})
@@ -34,6 +34,9 @@ func init() {
 func runC17(c *an.Ctx) {
 	c.Floor("C17-R10", 2)
 	c17ConnErrClass(c)
+	if n := sharedSendBufferIntact(c, "C17-R11", "dnsserver/forward."); n < 1 {
+		c.Und("C17-R11", "send/receive buffers of the forwarder", token.NoPos, "no buffer that is both sent and received into found (anchor: exchangeNet)")
+	}
 	c.Floor("C17-R9", 1)
 	c17ErrClassAgreement(c)
 	classSweep(c, "C17")
